@@ -58,6 +58,9 @@ def show(t):
 def prove_le(facts, a, b):
     """prove a <= b"""
     if a==b: return True
+    if isinstance(a,tuple) and a and a[0]=='ncast':
+        if isinstance(b,tuple) and b and b[0]=='int' and b[1]>=(1<<a[2])-1: return True
+        if nonneg(facts,a[1]) and prove_le(facts,a[1],('int',(1<<a[2])-1)) and prove_le(facts,a[1],b): return True
     if a==('int',0) and nonneg0(facts,b): return True
     # structural
     if isinstance(b,tuple) and b[0]=='max' and (prove_le(facts,a,b[1]) or prove_le(facts,a,b[2])): return True
@@ -73,6 +76,7 @@ def prove_le(facts, a, b):
     edges=collections.defaultdict(set)
     for f in facts:
         if f[0] in('lt','le'): edges[f[1]].add(f[2])
+        if f[0]=='lt' and isinstance(f[2],tuple) and f[2] and f[2][0]=='int': edges[f[1]].add(('int',f[2][1]-1))   # integers: x < c  =>  x <= c-1
         elif f[0]=='eq': edges[f[1]].add(f[2]); edges[f[2]].add(f[1])
     seen={a}; st=[a]
     while st:
@@ -483,6 +487,8 @@ class An:
         fn=self.fn; kind=self.kind
         assign = fn.d.get('impl_trait_def','').endswith('Assign') or (fn.argc>=1 and self.tyof(1+self.off).startswith('&mut BigDecimal') and fn.locals[0]=='()')
         out=self.deref(s,s.store.get(1+self.off if assign else 0,UNK))
+        if kind and kind.startswith('rounded-'):
+            self.ok+=1; return
         if kind in('rescale','scale-only'):
             if not isinstance(out,Rec): self.undec.append('ret not rec: %r'%(out,)); return
             tgt=('par',sorted(self.scale_params)[0])
@@ -556,6 +562,9 @@ class An:
             k=T(0)
             if k is None or not prove_le(s.facts,TERM0,k):
                 if self.fail('POW10 exponent not provably >=0 at line %d: %s'%(line,show(k) if k else '?'),'le',TERM0,k): s.facts.append(('le',TERM0,k))
+            if res.endswith('ten_to_the_u64') and k is not None and not prove_le(s.facts,k,('int',19)):
+                # 10^k must fit u64: the helper's summary 10^k holds only for k < 20
+                if self.fail('POW10 u64 fast path: exponent %s not provably < 20 at line %d (10^20 does not fit u64)'%(show(k),line),'le',k,('int',19)): s.facts.append(('le',k,('int',19)))
             v=IntV(P(1),k if k else ('unk','pow')); v.pow10=True
         elif re.search(r'BigDecimal::take_and_scale$|BigDecimal::with_scale$|to_owned_with_scale$',res):
             r=args[0]; Tt=T(1)
@@ -565,15 +574,28 @@ class An:
                 val=self.recval(s,r)
                 v=Rec(Tt,None,val if isinstance(val,dict) else None,None,'rescaled@%d'%line)
                 if isinstance(val,dict): v.ival=IntV(val,Tt)
+        elif self.kind and self.kind.startswith('rounded-') and re.search(r'BigDecimal::with_precision_round$|BigDecimal::with_scale_round$',res):
+            r=args[0]
+            val=self.recval(s,r) if isinstance(r,Rec) else None
+            a=self.argreal(1+self.off); b=self.argreal(2+self.off) if self.fn.argc>=2+self.off else None
+            sp=specval(self.kind[len('rounded-'):],a,b)
+            if isinstance(val,dict):
+                for k_,v_ in s.subst.items(): sp=psub_sym(sp,k_,v_); val=psub_sym(val,k_,v_)
+                if red(sp)!=red(val): self.viol.append('ROUNDED VALUE: the value handed to the rounding routine at line %d is %s, not the exact %s'%(line,pshow(red(val)),pshow(red(sp))))
+                else: self.rounded_ok=getattr(self,'rounded_ok',0)+1
+            else:
+                self.undec.append('value handed to the rounding routine at line %d is not tracked'%line)
+            v=Rec(('unk','rounded@%d'%line),None,None,None,'rounded')
         elif re.search(r'BigDecimal::set_scale$',res):
             r=args[0]; Tt=T(1)
             if isinstance(r,Rec) and Tt is not None:
-                if not prove_le(s.facts,r.scale,Tt):
-                    if self.fail('RESCALE not provably upward at line %d: %s <= %s'%(line,show(r.scale),show(Tt)),'le',r.scale,Tt): s.facts.append(('le',r.scale,Tt))
+                up=prove_le(s.facts,r.scale,Tt)
+                if not up and self.kind!='scale-only':
+                    if self.fail('RESCALE not provably upward at line %d: %s <= %s'%(line,show(r.scale),show(Tt)),'le',r.scale,Tt): s.facts.append(('le',r.scale,Tt)); up=True
                 val=self.recval(s,r)
                 r.scale=Tt
-                r.ival=IntV(val,Tt) if isinstance(val,dict) else None
-                if not isinstance(val,dict): r.val=None
+                r.ival=IntV(val if up else 'lossy',Tt) if (isinstance(val,dict) or not up) else None
+                if not isinstance(val,dict) or not up: r.val=None
             v=('int',0)
         elif re.search(r'BigDecimal::extend_scale_to$',res):
             r=args[0]; Tt=T(1)
